@@ -1,0 +1,42 @@
+//go:build verif
+// +build verif
+
+package websocket
+
+import (
+	"bufio"
+	"io"
+	"net"
+)
+
+// This file is compiled only with the "verif" build tag. It exposes a few
+// package internals to the external verification harness and does not change
+// the behaviour of any existing code.
+
+// VerifNewConn builds a connection exactly the way Upgrade (isServer) and Dial
+// (!isServer) do after a successful handshake: newConn plus, when compress is
+// true, the two permessage-deflate constructors.
+func VerifNewConn(nc net.Conn, isServer bool, readBufferSize, writeBufferSize int, pool BufferPool, br *bufio.Reader, compress bool) *Conn {
+	c := newConn(nc, isServer, readBufferSize, writeBufferSize, pool, br, nil)
+	if compress {
+		c.newCompressionWriter = compressNoContextTakeover
+		c.newDecompressionReader = decompressNoContextTakeover
+	}
+	return c
+}
+
+// VerifMaskRand returns the reader the package draws client mask keys from.
+func VerifMaskRand() io.Reader { return maskRand }
+
+// VerifSetMaskRand replaces the reader the package draws client mask keys from.
+func VerifSetMaskRand(r io.Reader) { maskRand = r }
+
+// VerifPoolBuf returns the byte slice inside a value handed to BufferPool.Put.
+func VerifPoolBuf(v interface{}) ([]byte, bool) {
+	wpd, ok := v.(writePoolData)
+	return wpd.buf, ok
+}
+
+// VerifPoolValue wraps a byte slice in the opaque value the package expects
+// from BufferPool.Get.
+func VerifPoolValue(b []byte) interface{} { return writePoolData{buf: b} }
